@@ -1280,6 +1280,12 @@ func corpus() []Case {
 		{World: std, Ops: []Op{{Op: "lookup", K: "diff", R: 0, T: 0}, {Op: "use", R: 0, T: 0}, {Op: "use", R: 0, T: 1}, {Op: "expire", R: 0, L: 0}, {Op: "expire", R: 0, L: 1}, {Op: "release", R: 0, T: 0}, {Op: "lookup", K: "diff", R: 0, T: 0}, {Op: "lookup", K: "diff", R: 0, T: 1}, {Op: "release", R: 0, T: 1}}},
 		// a failing resolution whose error is recorded after the last release of the image (in flight during the release)
 		{World: std, Ops: []Op{{Op: "lookup", K: "diff", R: 1, T: 2, Fl: []int{1}}, {Op: "use", R: 1, T: 2}, {Op: "expire", R: 1, L: 1}, {Op: "release", R: 1, T: 2}, {Op: "use", R: 1, T: 2}, {Op: "racerel", R: 1, L: 1, T: 2, Fl: []int{1}}, {Op: "lookup", K: "diff", R: 1, T: 1}}},
+		// thorough run (seed 1) of the phase-2 harness, case 82: a failing resolution racing with a release (error recorded after it)
+		{World: World{Ltoc: []int{0, 1, 2, 3, 4, -1, -1}, Images: [][]int{{4}}}, Ops: []Op{{Op: "use", R: 0, T: 4}, {Op: "lookup", K: "diff", R: 0, T: 3, Fl: []int{4}}, {Op: "release", R: 0, T: 4}, {Op: "use", R: 0, T: 4}, {Op: "racerel", R: 0, T: 4, L: 4, Fl: []int{4}}, {Op: "release", R: 0, T: 4}, {Op: "release", R: 0, T: 4}, {Op: "lookup", K: "diff", R: 0, T: 4, Grp: 1}, {Op: "lookup", K: "diff", R: 0, T: 4, Grp: 1}, {Op: "lookup", K: "diff", R: 0, T: 4, Grp: 1}, {Op: "lookup", K: "diff", R: 0, T: 4, Grp: 1}, {Op: "lookup", K: "diff", R: 0, T: 4}, {Op: "use", R: 0, T: 4}, {Op: "release", R: 0, T: 4}, {Op: "release", R: 0, T: 4}, {Op: "resolve", R: 0, L: 4, Fl: []int{4}}, {Op: "lookup", K: "blob", R: 0, T: 4}}},
+		// thorough run (seed 1) of the phase-2 harness, case 3844: a failing resolution racing with a release (error recorded after it)
+		{World: World{Ltoc: []int{0, 1, 2, 3, 4, -1, -1}, Images: [][]int{{3, 0, 1}, {3, 4}}}, Ops: []Op{{Op: "use", R: 1, T: 1}, {Op: "resolve", R: 0, L: 1, Fl: []int{1}}, {Op: "racerel", R: 1, T: 1, L: 3, Fl: []int{3}}, {Op: "use", R: 2, T: 2}, {Op: "lookup", K: "diff", R: 1, T: 3}, {Op: "use", R: 1, T: 3}, {Op: "release", R: 1, T: 3}, {Op: "release", R: 2, T: 2}, {Op: "use", R: 0}}},
+		// thorough run (seed 1) of the phase-2 harness, case 818: a failing resolution racing with a release (error recorded after it)
+		{World: World{Ltoc: []int{0, 1, 2, 3, 4, -1, -1}, Images: [][]int{{2}}}, Ops: []Op{{Op: "use", R: 0, T: 2}, {Op: "release", R: 0, T: 2}, {Op: "use", R: 0, T: 2}, {Op: "info", R: 0}, {Op: "racerel", R: 0, T: 2, L: 2, Fl: []int{2}}, {Op: "use", R: 0}, {Op: "lookup", K: "diff", R: 0, T: 2}, {Op: "use", R: 0, T: 2}, {Op: "lookup", K: "diff", R: 0}, {Op: "lookup", K: "diff", R: 0, T: 2, Grp: 1}, {Op: "lookup", K: "diff", R: 0, T: 2, Grp: 1}, {Op: "lookup", K: "diff", R: 0, T: 2, Grp: 1}, {Op: "lookup", K: "diff", R: 0, T: 2, Grp: 1}, {Op: "use", R: 0, T: 2}, {Op: "lookup", K: "diff", R: 0, T: 2}, {Op: "lookup", K: "diff", R: 0, T: 2, Grp: 2}, {Op: "lookup", K: "diff", R: 0, T: 2, Grp: 2}, {Op: "lookup", K: "diff", R: 0, T: 2, Grp: 2}, {Op: "lookup", K: "blob", R: 0, T: 2, Fl: []int{2}}}},
 		// F28: the last use of a layer is released while a resolveLayer of that layer is between cacheLayer and its bookkeeping
 		{World: std, Ops: []Op{{Op: "use", R: 1, T: 1}, {Op: "racerel", R: 1, L: 1, T: 1}, {Op: "lookup", K: "diff", R: 1, T: 1}, {Op: "lookup", K: "diff", R: 1, T: 1}, {Op: "use", R: 1, T: 2}, {Op: "racerel", R: 1, L: 1, T: 2}, {Op: "lookup", K: "blob", R: 1, T: 1}}},
 		// sub-steps interleaved with a release
